@@ -184,6 +184,8 @@ class Impl:
             z3wrapper.check_z3 = False
         except Exception:  # noqa
             pass
+        from logic import auto as _auto
+        self.auto = _auto
         self.rec = []
         self.recording = False
         self.cur = (None, None)          # (theory file, limit) describing theory.thy for replays
@@ -274,12 +276,15 @@ def first_line(e):
     return s[0][:60] if s else ""
 
 
-def judge(impl, name, args, prev_ths, limit=30):
+def judge(impl, name, args, prev_ths, limit=30, off=0):
     """The property oracle on one input.  Returns a dict:
       eval:   'ok' | 'fail:<Exc>'                (th_eval)
       expand: 'ok' | 'none:<Exc>'                (no expansion produced: nothing is claimed)
       check:  'ok' | 'rejected:<Exc>:<msg>' | None
       verdict: 'agree' | 'no-expansion' | <defect class>
+    `off` unrelated lines precede the premises, so that the premises of different calls sit at different
+    ids: an expansion that cites lines of an EARLIER call (a proof term kept in a module-level cache)
+    is then seen to cite lines that were not given to this call.
     """
     from harness.common.ctx import time_limit, Timeout
     theory, Proof, ProofItem, ItemID = impl.theory, impl.proof.Proof, impl.proof.ProofItem, impl.proof.ItemID
@@ -303,9 +308,10 @@ def judge(impl, name, args, prev_ths, limit=30):
                 th_eval = None
                 r["eval"] = "fail:" + type(e).__name__
             n = len(prev_ths)
-            ids = [ItemID(i) for i in range(n)]
+            ids = [ItemID(off + i) for i in range(n)]
+            pfx = ItemID(off + n)
             try:
-                sub = ox(ItemID(n), args, list(zip(ids, prev_ths)))
+                sub = ox(pfx, args, list(zip(ids, prev_ths)))
                 if not isinstance(sub, Proof) or not sub.items:
                     raise TypeError("expand returned %s" % type(sub).__name__)
                 r["expand"] = "ok"
@@ -315,10 +321,23 @@ def judge(impl, name, args, prev_ths, limit=30):
                 r["expand"] = "none:" + type(e).__name__
                 r["verdict"] = "no-expansion"
                 return r
+            # every citation must be one of the premises given to THIS call or an earlier line of the expansion
+            given = set(i.id for i in ids)
+            for k, si in enumerate(sub.items):
+                for p in si.prevs:
+                    inner = len(p.id) == len(pfx.id) + 1 and p.id[:len(pfx.id)] == pfx.id and p.id[-1] < k
+                    if not inner and p.id not in given:
+                        r["verdict"] = "expansion-cites-foreign-line"
+                        r["detail"] = "line %s (%s) cites %s; premises given: %s" % (si.id, si.rule, p, [str(i) for i in ids])
+                        return r
+            from kernel.term import Var as _Var
+            from kernel.type import BoolType as _Bool
             prf = Proof()
+            for i in range(off):
+                prf.add_item(i, "sorry", th=impl.thm.Thm(_Var("c04_unrelated_%d" % i, _Bool)))
             for i, th in enumerate(prev_ths):
-                prf.add_item(i, "sorry", th=th)
-            it = ProofItem(n, "subproof")
+                prf.add_item(off + i, "sorry", th=th)
+            it = ProofItem(off + n, "subproof")
             it.subproof = sub
             prf.items.append(it)
             r["nlines"] = len(sub.items)
@@ -353,9 +372,9 @@ def judge(impl, name, args, prev_ths, limit=30):
     finally:
         impl.recording = was
         impl.rec[:] = saved_rec
-    if len(rpt.gaps) != n:
+    if len(rpt.gaps) != n + off:
         r["verdict"] = "expansion-has-gaps"
-        r["detail"] = "gaps reported: %d, premises: %d" % (len(rpt.gaps), n)
+        r["detail"] = "gaps reported: %d, premises: %d" % (len(rpt.gaps) - off, n)
         return r
     if th_eval is None:
         # The evaluation reports nothing for this input, so there is no claim the expansion could
@@ -1051,6 +1070,9 @@ class Oracle:
         self.t_judge = 0.0
         self.nshrunk = {}
         self.tie = None
+        self.ncalls = 0
+        self.nauto_hist = 0
+        self.unexpanded = {}       # macro -> smallest input with eval ok and no expansion
         # macros without any expansion code (default get_proof_term raises NotImplementedError) and z3 (its
         # `expand` raises NotImplementedError): nothing to compare, their eval is not even run (z3 is slow)
         rt = impl.runtime_table()
@@ -1061,16 +1083,20 @@ class Oracle:
         return self.stats.setdefault(name, {"inputs": 0, "eval_ok": 0, "expand_ok": 0, "compared": 0, "agree": 0,
                                             "harvest": 0, "mutation": 0, "generated": 0, "nested": 0, "findings": {}})
 
-    def run_one(self, name, args, ths, origin, src, depth=0):
-        """Judge one input (deduplicated); returns the result dict or None when seen before."""
+    def run_one(self, name, args, ths, origin, src, depth=0, history=False):
+        """Judge one input (deduplicated, unless it is a step of a history); returns the result dict
+        or None when seen before."""
         import time
         k = input_key(name, args, ths)
         try:
-            if k in self.seen:
-                return None
-            self.seen.add(k)
+            if not history:
+                if k in self.seen:
+                    return None
+                self.seen.add(k)
         except TypeError:
             pass
+        self.ncalls += 1
+        off = origin.get("off", self.ncalls % 3)
         if name in self.no_expansion_code:
             st = self.stat(name)
             st["inputs"] += 1
@@ -1079,13 +1105,21 @@ class Oracle:
             self.ctx.count("%s:no-expansion-code" % src)
             return None
         t0 = time.time()
-        r = judge(self.impl, name, args, ths)
+        r = judge(self.impl, name, args, ths, off=off)
         self.t_judge += time.time() - t0
+        origin = dict(origin, off=off)
         st = self.stat(name)
         st["inputs"] += 1
-        st[src] += 1
+        st[src] = st.get(src, 0) + 1
         if r["eval"] == "ok":
             st["eval_ok"] += 1
+            if r["expand"] == "ok":
+                st["eval_ok_expansion"] = st.get("eval_ok_expansion", 0) + 1
+            elif r["verdict"] == "no-expansion":
+                st["eval_ok_no_expansion"] = st.get("eval_ok_no_expansion", 0) + 1
+                size = obj_size(args) + obj_size(list(ths))
+                if name not in self.unexpanded or size < self.unexpanded[name][0]:
+                    self.unexpanded[name] = (size, name, args, list(ths), r, origin, self.impl.cur)
         if r["expand"] == "ok":
             st["expand_ok"] += 1
         if r["check"] == "ok" and r["eval"] == "ok":
@@ -1105,22 +1139,48 @@ class Oracle:
                 r["nested"] = []
                 a2, t2, r2 = args, list(ths), r
                 known = any(f["key"] == key and f.get("status") == "known" for f in self.ctx.findings)
-                if not known:
+                if not known and not history:
                     self.nshrunk[key] = self.nshrunk.get(key, 0) + 1
                     try:
                         a3, t3 = self.shrink(name, args, list(ths), v)
-                        r3 = judge(self.impl, name, a3, t3)
+                        r3 = judge(self.impl, name, a3, t3, off=off)
                         if r3["verdict"] == v:
                             a2, t2, r2 = a3, t3, r3
                     except Exception:  # noqa
                         pass
                 size = obj_size(a2) + obj_size(t2)
                 if key not in self.found or size < self.found[key][0]:
+                    r2 = dict(r2, _what=describe(name, a2, t2, r2))      # printed now: the constants are in the theory now
                     self.found[key] = (size, name, a2, t2, r2, origin, self.impl.cur)
-        if depth < 2:
+        if depth < 2 and not history:
             for (n2, a2, t2) in r.get("nested", []):
-                self.run_one(n2, a2, t2, dict(origin, nested_in=name), "nested", depth + 1)
+                org2 = {k2: v2 for k2, v2 in origin.items() if k2 != "off"}
+                rn = self.run_one(n2, a2, t2, dict(org2, nested_in=name), "nested", depth + 1)
+                if rn is not None and n2 == "auto" and t2 and self.nauto_hist < self.ctx.scale(40, 400):
+                    # `auto` is reached only as a nested step: give its recorded calls the call-order scenario too
+                    from kernel.thm import Thm as _Thm
+                    self.nauto_hist += 1
+                    self.run_history([(n2, a2, [_Thm(t.prop) for t in t2]), (n2, a2, []), (n2, a2, t2), (n2, a2, [])],
+                                     dict(org2, kind="history", nested_in=name))
         return r
+
+    def run_history(self, calls, origin, setup=None):
+        """A history: macro calls made one after the other in this process (module-level caches are
+        emptied first, so that the history can be replayed).  Every call is judged like a single input;
+        its premises sit at other line numbers than those of the other calls."""
+        try:
+            self.impl.auto.clear_cache()
+        except Exception:  # noqa
+            pass
+        prior = []
+        out = []
+        for i, (name, args, ths) in enumerate(calls):
+            if name in self.no_expansion_code:
+                continue
+            org = dict(origin, call=i, off=(i + 1) % 3, _history={"setup": setup, "prior": list(prior)})
+            out.append(self.run_one(name, args, list(ths), org, "history", history=True))
+            prior.append((name, args, list(ths), (i + 1) % 3))
+        return out
 
     # -- minimisation: greedy, bounded
     def shrink(self, name, args, ths, verdict, budget=80):
@@ -1202,11 +1262,26 @@ class Oracle:
 
     def report(self):
         """Report one (minimised) violation per (macro, defect class)."""
+        # a macro that the checker must expand (level above the default trust level) and whose expansion was
+        # not produced on ANY input on which its evaluation succeeds: the evaluated statement is never backed
+        for name, ent in sorted(self.unexpanded.items()):
+            st = self.stats.get(name, {})
+            mc = self.impl.theory.global_macros.get(name)
+            if mc is None or mc.level == 0:
+                continue
+            if st.get("eval_ok_no_expansion", 0) >= 5 and st.get("eval_ok_expansion", 0) == 0:
+                r = dict(ent[4])
+                r["verdict"] = "expansion-never-produced"
+                r["detail"] = "eval succeeds on %d inputs; no expansion on any of them (%s)" % (st["eval_ok_no_expansion"], ent[4]["expand"])
+                self.found["%s:expansion-never-produced" % name] = (ent[0], name, ent[2], ent[3], r, ent[5], ent[6])
+                st["findings"]["expansion-never-produced"] = st["eval_ok_no_expansion"]
         for key in sorted(self.found):
             size, name, args, ths, r, origin, cur = self.found[key]
             verdict = r["verdict"]
-            what = describe(name, args, ths, r)
-            rp = {"macro": name, "verdict": verdict, "theory": cur[0], "limit": cur[1], "origin": origin,
+            what = r.get("_what") or describe(name, args, ths, r)
+            origin = dict(origin)
+            hist = origin.pop("_history", None)
+            rp = {"macro": name, "verdict": verdict, "theory": cur[0], "limit": cur[1], "origin": origin, "off": origin.get("off", 0),
                   "args_str": safe_str(args), "prevs_str": [safe_str(t) for t in ths],
                   "th_eval": safe_str(r.get("th_eval")), "th_exp": safe_str(r.get("th_exp")), "detail": r.get("detail", "")}
             try:
@@ -1214,6 +1289,17 @@ class Oracle:
             except TypeError as e:
                 rp["input"] = None
                 rp["unencodable"] = str(e)
+            if hist is not None:
+                try:
+                    rp["history"] = {"setup": hist["setup"],
+                                     "prior": [{"macro": n2, "args": enc_obj(a2), "prevs": [enc_obj(t) for t in t2], "off": o2,
+                                                "readable": "%s %s from %s" % (n2, safe_str(a2)[:120], [safe_str(t)[:80] for t in t2])}
+                                               for (n2, a2, t2, o2) in hist["prior"]]}
+                    what = "after the calls [%s] in the same process: %s" % (
+                        "; ".join(h["readable"] for h in rp["history"]["prior"])[:600], what)
+                except TypeError as e:
+                    rp["history"] = None
+                    rp["unencodable"] = str(e)
             self.ctx.violation(key, what, rp)
 
 
@@ -1236,6 +1322,11 @@ def describe(name, args, ths, r):
         return base + "expansion proves %s, eval reported %s (hypotheses not in the evaluation's sequent)" % (safe_str(r["th_exp"])[:200], safe_str(r["th_eval"])[:200])
     if v.startswith("expansion-rejected"):
         return base + "eval %s; the expansion is produced but the checker rejects it at check_level=0 (%s)" % (r["eval"], r["check"])
+    if v.startswith("expansion-cites-foreign-line"):
+        return base + "eval %s; the expansion cites a line that is not among the premises given to the macro (%s)" % (r["eval"], r["detail"])
+    if v.startswith("expansion-never-produced"):
+        return base + "eval reports %s but no expansion is produced, here or on any other input on which eval succeeds (%s)" % (
+            safe_str(r.get("th_eval"))[:200], r["detail"])
     if v.startswith("expansion-has-gaps"):
         return base + "the expansion contains `sorry` steps (%s)" % r["detail"]
     if v.startswith("eval-fails"):
@@ -1256,6 +1347,7 @@ def harvest_theory(ctx, impl, oracle, mut, thy, budget_s, mut_rate):
     data = basic.load_json_data(thy)
     basic.load_theory(thy, limit="start")
     nproofs = nfail = 0
+    t_hist = 0.0
     rng = mut.rng
     for raw in data["content"]:
         item = items.parse_item(raw)
@@ -1300,6 +1392,14 @@ def harvest_theory(ctx, impl, oracle, mut, thy, budget_s, mut_rate):
                         mut.prem_pool.append(th)
                     else:
                         mut.prem_pool[rng.randrange(400)] = th
+                hdraw = rng.random()        # drawn unconditionally: the time cap must not shift the random stream
+                if ths and t_hist < ctx.scale(6, 40) and (name == "auto" or hdraw < 0.08):
+                    # call-order scenario: same call with hypothesis-free premises, then WITHOUT premises, then as recorded
+                    from kernel.thm import Thm as _Thm
+                    t_h0 = time.time()
+                    oracle.run_history([(name, args, [_Thm(t.prop) for t in ths]), (name, args, []), (name, args, ths), (name, args, [])],
+                                       {"kind": "history", "theory": thy, "thm": item.name})
+                    t_hist += time.time() - t_h0
                 if rng.random() < mut_rate:
                     for _ in range(2):
                         try:
@@ -1324,7 +1424,12 @@ def run(ctx):
         "replace a premise, change a premise's statement or hypotheses, replace/swap/negate/retype a subterm of an argument, other theorem "
         "name, edited instantiation; numerals are kept atomic and constants at instances of their declared types); (c) per-family generators "
         "(nat/int/real arithmetic, fun_upd, avalI, imp_conj/imp_disj, resolution, basic logic macros, veriT rules via harness/props/c18.py); "
-        "(d) the macro steps nested in every checked expansion, as inputs of their own (depth 2). Distinct by structural key of the input; "
+        "(d) the macro steps nested in every checked expansion, as inputs of their own (depth 2); (e) apply_theorem(_for) on every "
+        "theorem of the theory that is not a first-order pattern, with variable / abstraction / redex-carrying instances and premises; "
+        "(f) HISTORIES: several calls in one process (hypothesis-free premises, then no premises, then assumptions, ...) for sampled "
+        "harvested calls and for `auto` with solve rules registered through auto.add_global_autos (library rule-like theorems; in the "
+        "thorough tier also integral/proof.py's own rules), each call with its premises at other line numbers. "
+        "Distinct by structural key of the input; "
         "non-trivial = an expansion is produced. Export tie: harvested proof terms and synthetic derivations from primitive rules "
         "(repeated sub-derivations, equal conclusions under different hypotheses).")
     # 1. registry table + Lean obligations
@@ -1778,14 +1883,279 @@ class FamGen:
 
 GEN_FAMILIES = [
     # (family, theory to load, method, cases quick, cases thorough)
-    ("nat-arith", "hoare", "nat_arith", 250, 2000),
+    ("nat-arith", "hoare", "nat_arith", 180, 2000),
     ("int-real-arith", "real", "int_real_arith", 100, 800),
     ("fun-upd", "hoare", "fun_upd", 120, 800),
     ("avalI", "expr", "avalI", 120, 800),
-    ("conj-disj", "hoare", "conj_disj", 300, 3000),
-    ("resolution", "hoare", "resolution", 200, 2000),
+    ("conj-disj", "hoare", "conj_disj", 200, 3000),
+    ("resolution", "hoare", "resolution", 120, 2000),
     ("basic-logic", "hoare", "basic_logic", 80, 600),
 ]
+
+
+# ------------------------------------------------------------------ higher-order theorems with redexes inside instances
+LOGICAL_HEADS = {"equals", "implies", "all", "exists", "conj", "disj", "neg", "true", "false", "The", "Some", "IF"}
+
+
+def ho_theorem_stream(ctx, impl, oracle, mut):
+    """apply_theorem / apply_theorem_for on the theorems of the loaded theory that are NOT first-order patterns
+    (a schematic variable in function position: exI, the_equality, allE, exE, induction rules ...), with
+    instances that are variables, abstractions, or non-abstractions CONTAINING a beta-redex ((%z. z) c), and with
+    premises stated with and without those redexes reduced."""
+    import time
+    from kernel.term import Var, Abs, Bound, Inst
+    from kernel.type import TyInst, NatType, TVar
+    from kernel.thm import Thm
+    from logic import matcher
+    t0 = time.time()
+    theory = impl.theory
+    rng = ctx.rng("gen:ho-theorems")
+    names = []
+    for nm in sorted(theory.thy.get_data("theorems").keys()):
+        try:
+            th = theory.get_theorem(nm)
+            if th.hyps or th.prop.size() > 70 or matcher.is_fo_pattern(th.prop) or not th.prop.get_svars():
+                continue
+            names.append(nm)
+        except Exception:  # noqa
+            continue
+    ctx.coverage["ho_theorems"] = len(names)
+    rounds = ctx.scale(220, 2500)
+    for i in range(rounds):
+        if not names:
+            break
+        nm = names[i % len(names)] if i < 2 * len(names) else rng.choice(names)
+        th = theory.get_theorem(nm)
+        tyinst = TyInst()
+        for stv in th.prop.get_stvars():
+            tyinst[stv.name] = NatType if rng.random() < 0.5 else TVar(stv.name)
+        inst = Inst()
+        inst.tyinst = tyinst
+        for sv in th.prop.get_svars():
+            T = sv.T.subst(tyinst)
+            k = rng.random()
+            if T.is_fun():
+                if k < 0.55:
+                    v = Var("h_" + sv.name, T)
+                elif k < 0.8:
+                    v = Abs("g", T, Bound(0))(Var("h_" + sv.name, T))            # (%g. g) h : not an abstraction
+                else:
+                    doms = T.strip_type()[0] if hasattr(T, "strip_type") else None
+                    v = Var("h_" + sv.name, T)
+                    try:
+                        x = Var("x_" + sv.name, T.domain_type())
+                        from kernel.term import Lambda
+                        v = Lambda(x, v(x))
+                    except Exception:  # noqa
+                        pass
+            else:
+                if k < 0.6:
+                    v = Abs("z", T, Bound(0))(Var("c_" + sv.name, T))            # (%z. z) c
+                else:
+                    v = Var("c_" + sv.name, T)
+            inst[sv.name] = v
+        org = {"kind": "generated", "family": "ho-theorems", "index": i, "theorem": nm}
+        cases = [("apply_theorem_for", (nm, inst), [])]
+        try:
+            As, _ = th.prop.subst_type(tyinst).strip_implies()
+            k = rng.randint(1, len(As)) if As else 0
+            raw = [A.subst(inst) for A in As[:k]]
+            hs = (Var("H1", impl.htype.BoolType),) if rng.random() < 0.3 else ()
+            prem_raw = [Thm(a, hs) for a in raw]
+            prem_norm = [Thm(a.beta_norm(), hs) for a in raw]
+            if k:
+                cases += [("apply_theorem_for", (nm, inst), prem_raw), ("apply_theorem", nm, prem_raw),
+                          ("apply_theorem_for", (nm, inst), prem_norm), ("apply_theorem", nm, prem_norm)]
+        except Exception:  # noqa
+            pass
+        for (name, args, ths) in cases:
+            oracle.run_one(name, args, ths, org, "generated")
+    ctx.log("generators ho-theorems: %d theorems, %d rounds in %.1fs; findings so far: %d" % (len(names), rounds, time.time() - t0, len(oracle.found)))
+
+
+# ------------------------------------------------------------------ histories: module-level caches of logic.auto
+def apply_setup(impl, setup):
+    """Registrations a history needs (public extension API of logic.auto); returns an undo function."""
+    auto = impl.auto
+    added = []
+    for ent in (setup or {}).get("register", []):
+        head = dec_obj(ent["head"])
+        if head in auto.global_autos:
+            continue
+        auto.add_global_autos(head, auto.solve_rules(list(ent["thms"])))
+        added.append(head)
+    added_norm = []
+    for ent in (setup or {}).get("register_norm", []):
+        head = dec_obj(ent["head"])
+        if head in auto.global_autos_norm:
+            continue
+        auto.add_global_autos_norm(head, auto.norm_rules(list(ent["thms"])))
+        added_norm.append(head)
+    for mod in (setup or {}).get("modules", []):
+        import importlib
+        importlib.import_module(mod)
+
+    def undo():
+        for h in added:
+            auto.global_autos.pop(h, None)
+        for h in added_norm:
+            auto.global_autos_norm.pop(h, None)
+        try:
+            auto.clear_cache()
+        except Exception:  # noqa
+            pass
+    return undo
+
+
+def auto_rule_histories(ctx, impl, oracle):
+    """`auto` closes a goal through a registered solve function (auto.add_global_autos + auto.solve_rules, as
+    integral/proof.py does).  For introduction-rule-like library theorems A1 --> ... --> C the rule is registered
+    for the head of C and the goal is asked for in several orders: without premises, with hypothesis-free
+    premises |- Ai, without premises again, with assumptions Ai |- Ai, without premises again.  A result kept in a
+    module-level cache (solve_record / norm_record) must never carry the premises of another call."""
+    import time
+    from kernel.term import Var, Inst
+    from kernel.type import TyInst, NatType
+    from kernel.thm import Thm
+    t0 = time.time()
+    theory, auto = impl.theory, impl.auto
+    rules = []
+    for nm in sorted(theory.thy.get_data("theorems").keys()):
+        try:
+            th = theory.get_theorem(nm)
+            As, C = th.prop.strip_implies()
+            if th.hyps or not (1 <= len(As) <= 3) or th.prop.size() > 50:
+                continue
+            if not C.head.is_const() or C.head.name in LOGICAL_HEADS or C.is_equals():
+                continue
+            if any(A.is_conj() or A.is_disj() or A.is_implies() or A.is_forall() or A == C for A in As):
+                continue
+            cs = set(v.name for v in C.get_svars())
+            if any(v.name not in cs for A in As for v in A.get_svars()) or not cs:
+                continue
+            rules.append(nm)
+        except Exception:  # noqa
+            continue
+    limit = ctx.scale(25, 150)
+    step = max(1, len(rules) // limit)
+    picked = rules[::step][:limit]
+    nh = 0
+    for nm in picked:
+        th = theory.get_theorem(nm)
+        tyinst = TyInst({stv.name: NatType for stv in th.prop.get_stvars()})
+        prop = th.prop.subst_type(tyinst)
+        inst = Inst({sv.name: Var("h_" + sv.name, sv.T) for sv in prop.get_svars()})
+        try:
+            As, G = prop.subst(inst).strip_implies()
+            head = G.head
+            if head in auto.global_autos or any(A.head in auto.global_autos for A in As if not A.is_not()):
+                continue
+            setup = {"register": [{"thms": [nm], "head": enc_obj(head)}]}
+        except Exception:  # noqa
+            continue
+        undo = apply_setup(impl, setup)
+        try:
+            free = [Thm(A) for A in As]
+            assumed = [Thm(A, (A,)) for A in As]
+            calls = [("auto", G, []), ("auto", G, free), ("auto", G, []), ("auto", G, assumed), ("auto", G, []),
+                     ("auto", G, free[:-1]), ("auto", G, [])]
+            oracle.run_history(calls, {"kind": "history", "family": "auto-rules", "theorem": nm}, setup=setup)
+            nh += 1
+        finally:
+            undo()
+    ctx.coverage["auto_rule_histories"] = {"rule_like_theorems": len(rules), "histories": nh}
+    ctx.log("histories auto-rules: %d histories (of %d rule-like theorems) in %.1fs; findings so far: %d" % (nh, len(rules), time.time() - t0, len(oracle.found)))
+
+
+def auto_norm_histories(ctx, impl, oracle):
+    """The same call orders for the equality branch of `auto` (auto.norm + norm_record): a conditional rewrite
+    rule A1 --> ... --> lhs = rhs of the library is registered with auto.add_global_autos_norm(head,
+    auto.norm_rules([name])) and `auto (lhs = rhs)` is asked for with and without the premises |- Ai."""
+    import time
+    from kernel.term import Var, Inst, Eq
+    from kernel.type import TyInst, NatType
+    from kernel.thm import Thm
+    t0 = time.time()
+    theory, auto = impl.theory, impl.auto
+    rules = []
+    for nm in sorted(theory.thy.get_data("theorems").keys()):
+        try:
+            th = theory.get_theorem(nm)
+            As, C = th.prop.strip_implies()
+            if th.hyps or not (1 <= len(As) <= 2) or th.prop.size() > 50 or not C.is_equals():
+                continue
+            lhs, rhs = C.lhs, C.rhs
+            if not lhs.is_comb() or not lhs.head.is_const() or lhs.head.name in LOGICAL_HEADS or lhs.get_type() == impl.htype.BoolType:
+                continue
+            if any(A.is_conj() or A.is_disj() or A.is_implies() or A.is_forall() or A.is_equals() for A in As):
+                continue
+            ls = set(v.name for v in lhs.get_svars())
+            if not ls or any(v.name not in ls for t in As + [rhs] for v in t.get_svars()):
+                continue
+            rules.append(nm)
+        except Exception:  # noqa
+            continue
+    limit = ctx.scale(25, 150)
+    step = max(1, len(rules) // limit)
+    nh = nagree = 0
+    for nm in rules[::step][:limit]:
+        th = theory.get_theorem(nm)
+        try:
+            tyinst = TyInst({stv.name: NatType for stv in th.prop.get_stvars()})
+            prop = th.prop.subst_type(tyinst)
+            inst = Inst({sv.name: Var("h_" + sv.name, sv.T) for sv in prop.get_svars()})
+            As, C = prop.subst(inst).strip_implies()
+            head = C.lhs.head
+            if head in auto.global_autos_norm or head in auto.global_autos or C.rhs.head in auto.global_autos_norm:
+                continue
+            setup = {"register_norm": [{"thms": [nm], "head": enc_obj(head)}]}
+        except Exception:  # noqa
+            continue
+        undo = apply_setup(impl, setup)
+        try:
+            free = [Thm(A) for A in As]
+            assumed = [Thm(A, (A,)) for A in As]
+            calls = [("auto", C, []), ("auto", C, free), ("auto", C, []), ("auto", C, assumed), ("auto", C, [])]
+            res = oracle.run_history(calls, {"kind": "history", "family": "auto-norm-rules", "theorem": nm}, setup=setup)
+            nh += 1
+            if res and len(res) > 1 and res[1] is not None and res[1]["verdict"] == "agree":
+                nagree += 1
+        finally:
+            undo()
+    ctx.coverage.setdefault("auto_norm_histories", []).append({"conditional_rewrites": len(rules), "histories": nh, "second_call_agrees": nagree})
+    ctx.log("histories auto-norm-rules: %d histories (%d where the call with premises is proved; %d conditional rewrites) in %.1fs; findings so far: %d"
+            % (nh, nagree, len(rules), time.time() - t0, len(oracle.found)))
+
+
+def integral_auto_histories(ctx, impl, oracle):
+    """thorough tier: the same call orders with the solve rules that integral/proof.py registers itself."""
+    import time
+    t0 = time.time()
+    try:
+        import importlib
+        importlib.import_module("integral.proof")
+        load_state(impl, "realintegral", None)
+        from logic import context
+        from syntax import parser
+        from kernel.thm import Thm
+        context.set_context("realintegral", vars={"f": "real => real", "g": "real => real", "s": "real set"})
+        goals = [("real_continuous_on (%x. f x + g x) s", ["real_continuous_on f s", "real_continuous_on g s"]),
+                 ("real_continuous_on (%x. f x * g x) s", ["real_continuous_on f s", "real_continuous_on g s"]),
+                 ("real_continuous_on (%x. -(f x)) s", ["real_continuous_on f s"]),
+                 ("real_continuous_on (%x. sin (f x)) s", ["real_continuous_on f s"])]
+        n = 0
+        for g, asms in goals:
+            G = parser.parse_term(g)
+            As = [parser.parse_term(a) for a in asms]
+            free = [Thm(A) for A in As]
+            assumed = [Thm(A, (A,)) for A in As]
+            calls = [("auto", G, []), ("auto", G, free), ("auto", G, []), ("auto", G, assumed), ("auto", G, [])]
+            oracle.run_history(calls, {"kind": "history", "family": "auto-integral", "goal": g}, setup={"modules": ["integral.proof"]})
+            n += 1
+        ctx.log("histories auto-integral: %d histories in %.1fs; findings so far: %d" % (n, time.time() - t0, len(oracle.found)))
+    except Exception as e:  # noqa
+        ctx.coverage["auto_integral_histories"] = "unavailable: %s: %s" % (type(e).__name__, str(e)[:200])
+        ctx.log("histories auto-integral unavailable: %s" % e)
 
 
 def run_generators(ctx, impl, oracle, mut):
@@ -1828,6 +2198,17 @@ def run_generators(ctx, impl, oracle, mut):
                 if m is not None:
                     oracle.run_one(name, m[1], m[2], dict(org, mutation=m[0]), "mutation")
         ctx.log("generators %s: %d rounds in %.1fs; findings so far: %d" % (fam, n, time.time() - t0, len(oracle.found)))
+    for thy in ("hoare", "real"):
+        try:
+            load_state(impl, thy, None)
+            ho_theorem_stream(ctx, impl, oracle, mut)
+            auto_rule_histories(ctx, impl, oracle)
+            auto_norm_histories(ctx, impl, oracle)
+        except Exception as e:  # noqa
+            ctx.log("ho-theorem / history streams on %s stopped: %s: %s" % (thy, type(e).__name__, e))
+            ctx.count("generator-error:ho-or-history:" + thy)
+    if ctx.tier == "thorough":
+        integral_auto_histories(ctx, impl, oracle)
     verit_stream(ctx, impl, oracle, mut)
 
 
@@ -1850,7 +2231,7 @@ def verit_stream(ctx, impl, oracle, mut):
         return
     impl.cur = ("verit", None)
     mut.rng = ctx.rng("genmut:verit")
-    ncor, nmut = ctx.scale(25, 150), ctx.scale(2, 3)
+    ncor, nmut = ctx.scale(16, 150), ctx.scale(2, 3)
     import io
     import contextlib
     for rule in sorted(GEN):
@@ -1915,10 +2296,23 @@ def replay(ctx, rp):
     if not r.get("input"):
         print("replay has no encoded input")
         return False
+    hist = r.get("history")
+    if hist and "integral.proof" in (hist.get("setup") or {}).get("modules", []):
+        import importlib
+        importlib.import_module("integral.proof")
     load_state(impl, r.get("theory"), r.get("limit"))
     args = dec_obj(r["input"]["args"])
     ths = [dec_obj(t) for t in r["input"]["prevs"]]
-    res = judge(impl, r["macro"], args, ths, limit=120)
+    if hist:
+        apply_setup(impl, hist.get("setup"))
+        impl.auto.clear_cache()
+        for h in hist["prior"]:
+            rr = judge(impl, h["macro"], dec_obj(h["args"]), [dec_obj(t) for t in h["prevs"]], limit=120, off=h.get("off", 0))
+            print("earlier call %s: eval=%s expand=%s verdict=%s" % (h["readable"][:150], rr["eval"], rr["expand"], rr["verdict"]))
+    res = judge(impl, r["macro"], args, ths, limit=120, off=r.get("off", 0))
+    if r.get("verdict") == "expansion-never-produced":
+        print("macro %s: eval=%s expand=%s" % (r["macro"], res["eval"], res["expand"]))
+        return res["eval"] == "ok" and res["expand"] != "ok"
     print("macro %s: eval=%s expand=%s check=%s verdict=%s" % (r["macro"], res["eval"], res["expand"], res["check"], res["verdict"]))
     print("  eval reports:    %s" % safe_str(res.get("th_eval")))
     print("  expansion proves: %s" % safe_str(res.get("th_exp")))
@@ -1937,7 +2331,9 @@ MANIFEST = {
             "their mutations, per-family generators and the veriT rule generators.",
     "note": "Partial: the bodies of the 144 macros are not modelled; 107 of them override eval, so for these agreement is evidence per input "
             "(counts per macro in evidence: inputs / eval ok / expansion produced / compared / agree; macros never reached are listed). "
-            "Model tied to kernel/proofterm.py by differential runs of the compiled driver on harvested and synthetic proof terms (line "
+            "Besides eval = checked expansion the oracle requires that an expansion cites only the premises given to that call (or its own "
+            "earlier lines), has no gaps, and that a macro above the default trust level produces an expansion on at least one input on "
+            "which its eval succeeds. Model tied to kernel/proofterm.py by differential runs of the compiled driver on harvested and synthetic proof terms (line "
             "structure: ids, rules, citations, sequents; checker verdict with all macros evaluated) and on ItemID.can_depend_on. An input on "
             "which eval raises while an expansion exists is counted (no-evaluation), not a violation, for macros with their own eval. "
             "Trusted: Lean kernel + propext/Classical.choice/Quot.sound, the harness (recorder, mutators, generators, comparison), "
@@ -1978,6 +2374,9 @@ FINDINGS = [
     {"status": "fixed", "key": "intros:expansion-rejected:InvalidDerivationException", "commit": "aa633e8",
      "what": "intros args=[?m. n = 2 * m] prevs=[|- ?m. n = 2 * m, |- _VAR m, n = 2 * m |- n = 2 * m, |- (%m. n = 2 * m) n]: the nested "
              "apply_theorem exE step evaluates (premises matched up to beta) but its expansion raises, so the checker rejects the expansion of intros"},
+    {"status": "fixed", "key": "verit_or:expansion-never-produced", "commit": "fixes/C04-12-verit_or.patch",
+     "what": "verit_or args=(a, false) prevs=[|- a | false]: eval reports |- a | false but get_proof_term returns the cited premise itself, which "
+             "ProofTerm.export refuses (export: atom): no expansion on any input on which eval succeeds"},
     {"status": "fixed", "key": "verit_not_implies1:hypotheses-added:premise-hypotheses-missing-in-eval", "commit": "f582d63",
      "what": "verit_not_implies1 on H3 |- ~(a --> e): eval reports |- a, the expansion proves H3 |- a (repaired by the C18 patch)"},
     {"status": "fixed", "key": "verit_not_implies2:hypotheses-added:premise-hypotheses-missing-in-eval", "commit": "f582d63",
